@@ -249,7 +249,7 @@ def run_pack(prop, cases, grounds=(), bounded=(), *, tier="quick", seed=0, assum
             try:
                 sf, node = loader.find_unit(s)
                 hashes[s] = sf.sha(node)
-            except Exception as e:  # noqa
+            except BaseException as e:  # noqa
                 hashes[s] = f"unbound: {e}"
         st = "proved"
         if any(x[0] == u for x in out_of_subset):
